@@ -619,7 +619,7 @@ func C05(tier string) int {
 		run(newLinkScenario("ref-counted 2x2 counts<=2", a2, b2, false, true, 2), 0)
 		// two operations in ONE transaction (the second sees the first one's uncommitted writes)
 		for _, sc := range []*linkScenario{newLinkScenario("links 2x2, 2 ops per tx", a2, b2, true, false, 0), newLinkScenario("ref-counted 2x2 counts<=2, 2 ops per tx", a2, b2, false, true, 2)} {
-			runE1(rep, sc, explore.Config{Programs: c05PairPrograms(sc.Ops())})
+			runE1(rep, sc, explore.Config{Programs: c05PairPrograms(sc.Ops()), SkipRejectedPrefix: true})
 		}
 		setLinksExhaustive(rep, 3)
 	} else {
@@ -627,7 +627,7 @@ func C05(tier string) int {
 		run(newLinkScenario("ref-counted 2x2 counts<=3", a2, b2, false, true, 3), 0)
 		run(newLinkScenario("links+ref-counted 2x2 counts<=2", a2, b2, true, true, 2), 12_000_000)
 		for _, sc := range []*linkScenario{newLinkScenario("links 2x2, 2 ops per tx (all pairs)", a2, b2, true, false, 0), newLinkScenario("ref-counted 2x2 counts<=2, 2 ops per tx (all pairs)", a2, b2, false, true, 2)} {
-			runE1(rep, sc, explore.Config{Programs: explore.Pairs(len(sc.Ops()))})
+			runE1(rep, sc, explore.Config{Programs: explore.Pairs(len(sc.Ops())), SkipRejectedPrefix: true})
 		}
 		setLinksExhaustive(rep, 4)
 	}
